@@ -1066,6 +1066,9 @@ sexp sexp_equalp_bound (sexp ctx, sexp self, sexp_sint_t n, sexp a, sexp b, sexp
   sexp t, *p, *q, depth2;
   char *p_left, *p_right, *q_left, *q_right;
 
+  sexp_assert_type(ctx, sexp_fixnump, SEXP_FIXNUM, depth);
+  sexp_assert_type(ctx, sexp_fixnump, SEXP_FIXNUM, bound);
+
  loop:
   if (a == b)
     return bound;
